@@ -139,6 +139,30 @@ fn run(ctx: &Ctx) {
         },
         check,
     );
+    // second alphabet (TAB/LF, `<?xml`): all cut sets
+    let n2 = ctx.tier.pick(5u32, 6);
+    let count2 = gen::exh_count(gen::SIGMA2.len() as u64, n2);
+    let masks2 = 1u64 << (n2 - 1);
+    ctx.run_indexed(
+        "exh-bytes-alphabet2-x-all-cuts",
+        count2 * masks2,
+        |i| {
+            let input = gen::exh_bytes(gen::SIGMA2, i / masks2);
+            let m = i % masks2;
+            if input.len() < 2 {
+                if m != 0 {
+                    return None;
+                }
+            } else if m >> (input.len() - 1) != 0 {
+                return None;
+            }
+            let mut r = rot(seed, "c02-a2", i);
+            let cfg = (r.next() & 127) as u8;
+            let pend = (0..4).map(|_| r.below(3) as u8).collect();
+            Some(Case { cuts: cuts_from_mask(m, input.len()), input: B(input), cfg, pend, clear: r.chance(3, 4) })
+        },
+        check,
+    );
     // every pending pattern (0..=2 before each of the first four refills) for short strings x all cuts
     let ns = ctx.tier.pick(3u32, 4);
     let scount = gen::exh_count(13, ns);
